@@ -122,6 +122,8 @@ def check_sequence(name, dim, kind):
     out = []
     kept = []
     sh = shim_mod.SHIM
+    scribble = not kind.endswith("-keep")     # "-keep": the caller only keeps the returned lists (as Job.evaluate does)
+    kind = kind.replace("-keep", "")
     for x in pts:
         vec = np.array(x, dtype=float) if kind == "ndarray" else ([np.float64(v) for v in x] if kind == "npfloat" else [float(v) for v in x])
         ind = Individual(vec)
@@ -132,8 +134,9 @@ def check_sequence(name, dim, kind):
             after = [float(v) for v in ind.vector]
             sh.reset(1, _ForcedUnit([0.5] * 64))
             try:
-                r1.append(99.0)          # the caller extends / overwrites the list it was given (WorstCaseEvaluator does)
-                r1[0] = -77.0
+                if scribble:
+                    r1.append(99.0)          # the caller extends / overwrites the list it was given (WorstCaseEvaluator does)
+                    r1[0] = -77.0
             except Exception:
                 pass
             r2 = [float(v) for v in p.evaluate(Individual(list(vec) if not hasattr(vec, "copy") else vec.copy()))]
@@ -145,7 +148,7 @@ def check_sequence(name, dim, kind):
             out.append(("C15:%s:evaluate-modifies-the-vector" % name, "%s(dimension=%r): vector %r became %r (%s)" % (name, dim, x, after, kind)))
         if r2 != snap:
             out.append(("C15:%s:second-evaluation-differs" % name, "%s(dimension=%r) at %r: %r then %r (%s)" % (name, dim, x, snap, r2, kind)))
-        kept.append((x, r1, ([-77.0] + snap[1:] + [99.0]) if isinstance(r1, list) else snap))
+        kept.append((x, r1, ([-77.0] + snap[1:] + [99.0]) if (isinstance(r1, list) and scribble) else snap))
     for x, obj, snap in kept:
         if [float(v) for v in obj] != snap:
             out.append(("C15:%s:earlier-result-overwritten" % name, "%s(dimension=%r): result for %r was %r, reads %r after later evaluations" % (
@@ -224,7 +227,7 @@ def _shard(shard, col: Collector):
                     for key, msg in check_point(name, dim, x, as_numpy, False, draws):
                         col.violation(key, "point", msg, {"name": name, "dim": dim, "x": x, "numpy": as_numpy, "draws": draws})
     if first_idx in (None, 0):
-        for kind in ("float", "npfloat", "ndarray"):
+        for kind in ("float", "npfloat", "ndarray", "float-keep", "ndarray-keep"):
             col.case()
             col.nontrivial((name, dim, "seq", kind))
             for key, msg in check_sequence(name, dim, kind):
@@ -270,6 +273,13 @@ def run(tier, seed):
                 shards.append(("Michaelwicz", dim, i))
         else:
             shards.append(("Michaelwicz", dim, None))
+    # Michaelwicz refuses every other dimension; whatever dimension it accepts is in scope
+    for dim in (1, 3, 4, 6, 7, 8, 9, 11, 12, 20):
+        try:
+            get_problem("Michaelwicz", dim)
+        except Exception:
+            continue
+        shards.append(("Michaelwicz", dim, None))
     for name in FIXED_FUNCS + ROBUST_FUNCS:
         if name == "Synthetic10D":
             for i in range(3):
